@@ -196,7 +196,7 @@ PROPS["C10"]["rule"] += " sm: package-level SendMail and DialStartTLS + Client.S
 PROPS["C14"]["kinds"] = ["trip", "cli", "c11"]
 PROPS["C14"]["trusted_base"] = TRIP_TB + CLI_TB
 
-PROPS["C01"]["kinds"] = ["dr", "c01", "tls"]
+PROPS["C01"]["kinds"] = ["dr", "c01", "tls", "tmo"]
 PROPS["C01"]["rule"] += " c01: whole conversations - MAIL with every parameter (SIZE below/at/above the real size, BODY, SMTPUTF8, RET/ENVID, AUTH) x RCPT parameters x SMTP/LMTP/LMTP-session/HELO x size limit none/at/above x an earlier transaction on the same connection, then DATA with dot-stuffed, binary and empty bodies; the octets the backend reads are stated by the generator (expect-last-data). tls: DATA transactions before and after a real STARTTLS upgrade (the message read inside TLS must be the octets sent inside TLS)."
 PROPS["C01"]["trusted_base"] = PROPS["C01"]["trusted_base"] + CONV_TB + TLS_TB
 PROPS["C02"]["kinds"] = ["c02", "dr", "tls"]
@@ -239,6 +239,8 @@ PROPS["C16"]["rule"] += TRIPW_RULE
 
 # the case lines of this kind are long: a smaller in-Coq sample keeps coqc's parsing time down
 PROPS["C16"]["shard"] = {"tripw": 16}
+PROPS["C18"]["kinds"] = ["tripw"] + PROPS["C18"]["kinds"]
+PROPS["C18"]["shard"] = {"tripw": 16}
 WTMO_RULE = (" wtmo: the REAL LMTP server (WriteTimeout 300 ms) on a TCP loopback listener, an LMTPSession backend that follows a script of"
              " steps {read the message, SetStatus(addr, err), sleep 3 x WriteTimeout} - prompt (control); second / third recipient late; the whole"
              " delivery late (sleep before / after reading); first status before the message is read and the others late one after the other;"
